@@ -52,7 +52,7 @@ def run_shards(check_name, items, tier, shard_timeout, nshards=None, extra_env=N
             lp = open(os.path.join(wd, f"log{k}.txt"), "w")
             p = subprocess.Popen(
                 [env.PY, "-X", "faulthandler", "-m", "vf.worker", check_name, ip, op],
-                cwd=env.VERIF, env=env.child_env(extra_env), stdout=lp, stderr=subprocess.STDOUT,
+                cwd=env.VERIF, env=env.child_env(extra_env), stdout=lp, stderr=subprocess.STDOUT, stdin=subprocess.DEVNULL,
             )
             procs.append((k, p, op, lp))
         results, problems = [], []
